@@ -1,9 +1,911 @@
-//! stub — not built yet
+//! C07 — checked packet views never panic on arbitrary bytes (bounded-exhaustive enumeration).
+//!
+//! Domain (all enumerated completely, nothing sampled):
+//!  (a) every byte string of length 0, 1, 2; quick: every string of length 3 and 4 over a
+//!      24-value boundary alphabet; thorough: every string of length 3, and every string of
+//!      length 4 whose last two bytes are from a 41-value boundary alphabet (first two: any);
+//!  (b) for every catalogue packet (`catalog.rs`: well-formed packets of every wire type built
+//!      with `Repr::emit`, plus hand-assembled forms smoltcp cannot emit): every truncation,
+//!      every single-byte corruption (position x all 255 other values), every pair of
+//!      corruptions over the entry's <= 24 header/length/type positions with 11 boundary
+//!      values; thorough: each of these also padded to 2048 bytes with a fixed pattern, plus
+//!      the full 256x256 cross product of each entry's two layout-selecting key bytes.
+//! Every distinct input is handed to every view type (`probes.rs`): `new_checked`, and on `Ok`
+//! every applicable read accessor, `Repr::parse`, `Display`/`PrettyPrinter`, each under
+//! `catch_unwind`. Oracle: no panic; name/option iterators stay within their byte budget; no
+//! call hangs (watchdog).
+//!
+//! "Reading outside the buffer" cannot happen silently: smoltcp is `#![deny(unsafe_code)]`, an
+//! out-of-range access is a panic.
+
 use crate::core::*;
-pub fn run(_tier: Tier) -> i32 {
-    eprintln!("harness not built yet");
-    2
+use serde_json::json;
+use std::collections::{BTreeMap, HashSet};
+use std::fmt::Write as _;
+use std::hash::{BuildHasherDefault, Hasher};
+use std::panic::{catch_unwind, AssertUnwindSafe};
+use std::sync::atomic::{AtomicBool, AtomicU32, AtomicU64, AtomicUsize, Ordering};
+use std::sync::{Arc, Mutex};
+
+mod catalog;
+mod probes;
+
+use catalog::Entry;
+use probes::PROBES;
+
+// ------------------------------------------------------------------------------------------
+// per-thread evaluation context
+// ------------------------------------------------------------------------------------------
+
+#[derive(Default, Clone)]
+pub struct TStat {
+    pub tried: u64,
+    pub accepted: u64,
+    pub calls: u64,
+    pub panics: u64,
+    pub loops: u64,
 }
-pub fn replay(_art: &serde_json::Value) -> i32 {
-    2
+
+#[derive(Clone)]
+pub struct Finding {
+    pub sig: String,
+    pub detail: String,
+    pub ty: &'static str,
+    pub call: String,
+    pub input: Vec<u8>,
+}
+
+/// progress slot read by the watchdog
+struct Slot {
+    busy: AtomicBool,
+    seq: AtomicU64,
+    ty: AtomicUsize,
+    ordinal: AtomicU32,
+    spec: [AtomicU64; 2],
+}
+
+static SLOTS: Mutex<Vec<Arc<Slot>>> = Mutex::new(Vec::new());
+
+/// view types whose `new_checked` accepts (almost) any non-empty buffer; not counted for `distinct_nontrivial`
+const TRIVIAL_ACCEPTORS: &[&str] = &["Ipv6HopByHopHeader", "Ipv6RoutingHeader"];
+
+pub struct Ctx {
+    ty: usize,
+    ordinal: u32,
+    /// replay of a hang: execute calls before this ordinal, name the one at it, skip the rest
+    dry_limit: Option<u32>,
+    dry_name: Option<&'static str>,
+    pub stats: Vec<TStat>,
+    pub found: BTreeMap<String, Finding>,
+    pub machinery: Vec<String>,
+    scratch: String,
+    slot: Arc<Slot>,
+    seqno: u64,
+    pub inputs: u64,
+    pub inputs_a: u64,
+    pub distinct: u64,
+    pub distinct_nontrivial: u64,
+    accepted_any: bool,
+    pub max_len_accepted: usize,
+}
+
+impl Ctx {
+    fn new() -> Ctx {
+        let slot = Arc::new(Slot {
+            busy: AtomicBool::new(false),
+            seq: AtomicU64::new(0),
+            ty: AtomicUsize::new(0),
+            ordinal: AtomicU32::new(0),
+            spec: [AtomicU64::new(0), AtomicU64::new(0)],
+        });
+        SLOTS.lock().unwrap().push(slot.clone());
+        Ctx {
+            ty: 0,
+            ordinal: 0,
+            dry_limit: None,
+            dry_name: None,
+            stats: vec![TStat::default(); PROBES.len()],
+            found: BTreeMap::new(),
+            machinery: vec![],
+            scratch: String::with_capacity(4096),
+            slot,
+            seqno: 0,
+            inputs: 0,
+            inputs_a: 0,
+            distinct: 0,
+            distinct_nontrivial: 0,
+            accepted_any: false,
+            max_len_accepted: 0,
+        }
+    }
+
+    fn begin_group(&mut self, ty: usize) {
+        self.ty = ty;
+        self.ordinal = 0;
+        self.stats[ty].tried += 1;
+        self.slot.ty.store(ty, Ordering::Relaxed);
+    }
+
+    pub fn accepted(&mut self) {
+        self.stats[self.ty].accepted += 1;
+        if !TRIVIAL_ACCEPTORS.contains(&PROBES[self.ty].0) {
+            self.accepted_any = true;
+        }
+    }
+
+    /// Run one call of the code under test under `catch_unwind`.
+    #[inline]
+    pub fn call<R>(&mut self, b: &[u8], name: &'static str, f: impl FnOnce() -> R) -> Option<R> {
+        self.ordinal += 1;
+        if let Some(l) = self.dry_limit {
+            if self.ordinal >= l {
+                if self.ordinal == l {
+                    self.dry_name = Some(name);
+                }
+                return None;
+            }
+        }
+        self.seqno += 1;
+        self.slot.seq.store(self.seqno, Ordering::Relaxed);
+        self.slot.ordinal.store(self.ordinal, Ordering::Relaxed);
+        self.stats[self.ty].calls += 1;
+        match catch_unwind(AssertUnwindSafe(f)) {
+            Ok(r) => Some(std::hint::black_box(r)),
+            Err(p) => {
+                self.record_panic(b, name, p);
+                None
+            }
+        }
+    }
+
+    /// Format a value (Display / PrettyPrinter) into a scratch string.
+    pub fn show(&mut self, b: &[u8], name: &'static str, v: &dyn std::fmt::Display) {
+        let mut s = std::mem::take(&mut self.scratch);
+        s.clear();
+        self.call(b, name, || {
+            let _ = write!(s, "{}", v);
+        });
+        std::hint::black_box(s.len());
+        self.scratch = s;
+    }
+
+    fn keep(&mut self, f: Finding) {
+        match self.found.get(&f.sig) {
+            Some(old) if (old.input.len(), &old.input) <= (f.input.len(), &f.input) => {}
+            _ => {
+                self.found.insert(f.sig.clone(), f);
+            }
+        }
+    }
+
+    fn record_panic(&mut self, b: &[u8], name: &'static str, p: Box<dyn std::any::Any + Send>) {
+        let tyname = PROBES[self.ty].0;
+        let loc = last_panic_loc();
+        let msg = panic_msg(p);
+        // smoltcp is a path dependency (absolute /repo/... locations, as are std and registry
+        // crates); this crate's own files have relative locations: a panic located there is a
+        // harness bug, never a verdict.
+        if !loc.starts_with('/') {
+            self.machinery.push(format!("harness panic in {}::{} at {}: {}", tyname, name, loc, msg));
+            return;
+        }
+        self.stats[self.ty].panics += 1;
+        let sig = format!("C07/panic/{}/{}/{}", tyname, name, panic_site());
+        let detail = format!(
+            "{}::new_checked accepted {} bytes, then {} panicked: '{}' at {}; input = {}",
+            tyname,
+            b.len(),
+            name,
+            msg,
+            loc,
+            hex(b, 96)
+        );
+        self.keep(Finding { sig, detail, ty: tyname, call: name.to_string(), input: b.to_vec() });
+    }
+
+    /// An iterator / parser exceeded its byte budget (would not terminate in a caller).
+    pub fn looped(&mut self, b: &[u8], name: &'static str, what: String) {
+        let tyname = PROBES[self.ty].0;
+        self.stats[self.ty].loops += 1;
+        let sig = format!("C07/loop/{}/{}", tyname, name);
+        let detail = format!("{} {}: {}; input = {}", tyname, name, what, hex(b, 96));
+        self.keep(Finding { sig, detail, ty: tyname, call: name.to_string(), input: b.to_vec() });
+    }
+
+    fn merge(mut self, o: Ctx) -> Ctx {
+        for (a, b) in self.stats.iter_mut().zip(o.stats.iter()) {
+            a.tried += b.tried;
+            a.accepted += b.accepted;
+            a.calls += b.calls;
+            a.panics += b.panics;
+            a.loops += b.loops;
+        }
+        for (_, f) in o.found {
+            self.keep(f);
+        }
+        self.machinery.extend(o.machinery);
+        self.inputs += o.inputs;
+        self.inputs_a += o.inputs_a;
+        self.distinct += o.distinct;
+        self.distinct_nontrivial += o.distinct_nontrivial;
+        self.max_len_accepted = self.max_len_accepted.max(o.max_len_accepted);
+        self
+    }
+}
+
+fn hex(b: &[u8], max: usize) -> String {
+    let mut s = String::with_capacity(2 * b.len().min(max) + 16);
+    for x in b.iter().take(max) {
+        let _ = write!(s, "{:02x}", x);
+    }
+    if b.len() > max {
+        let _ = write!(s, "..(+{} bytes)", b.len() - max);
+    }
+    s
+}
+fn hex_full(b: &[u8]) -> String {
+    hex(b, usize::MAX)
+}
+fn unhex(s: &str) -> Option<Vec<u8>> {
+    if s.len() % 2 != 0 {
+        return None;
+    }
+    (0..s.len() / 2).map(|i| u8::from_str_radix(s.get(2 * i..2 * i + 2)?, 16).ok()).collect()
+}
+
+// ------------------------------------------------------------------------------------------
+// input domain
+// ------------------------------------------------------------------------------------------
+
+/// boundary byte alphabets for the length-3 / length-4 strings: field extremes plus the
+/// dispatch / type / length values the short view types (IPv6 option, routing header, IPHC,
+/// NHC, 6LoWPAN fragment, 802.15.4 frame control + security control, TCP option) key on
+const ALPHA_QUICK: &[u8] = &[
+    0x00, 0x01, 0x02, 0x03, 0x04, 0x05, 0x08, 0x09, 0x0f, 0x10, 0x20, 0x23, 0x3b, 0x40, 0x41, 0x60, 0x7a, 0x7f, 0x80, 0xc0, 0xe1, 0xf0, 0xf3, 0xff,
+];
+const ALPHA_THOROUGH: &[u8] = &[
+    0x00, 0x01, 0x02, 0x03, 0x04, 0x05, 0x06, 0x07, 0x08, 0x09, 0x0a, 0x0f, 0x10, 0x18, 0x1f, 0x20, 0x23, 0x28, 0x3b, 0x3f, 0x40, 0x41,
+    0x49, 0x60, 0x7a, 0x7f, 0x80, 0x88, 0xa0, 0xc0, 0xc8, 0xcc, 0xe0, 0xe1, 0xe3, 0xee, 0xf0, 0xf3, 0xf7, 0xfe, 0xff,
+];
+const PAIR_VALUES: &[u8] = &[0x00, 0x01, 0x07, 0x08, 0x0f, 0x3f, 0x40, 0x7f, 0x80, 0xf0, 0xff];
+const PAD_TO: usize = 2048;
+const PAD_PATTERN: [u8; 16] = [0x01, 0x00, 0x02, 0x04, 0xff, 0x03, 0x08, 0x0a, 0xc0, 0x0c, 0x05, 0x12, 0x7f, 0x80, 0x06, 0x3f];
+/// quick tier: entries longer than this get single-byte corruptions only on their first LONG_HEAD bytes and last 4
+const LONG_ENTRY: usize = 400;
+const LONG_HEAD: usize = 96;
+
+#[derive(Clone, Copy, Debug)]
+enum Item {
+    /// all strings of length <= 2 with first byte = a (len 1: the string [a]; plus the empty string when a == 0)
+    Small2(u8),
+    /// quick: strings of length 3 and 4 over the alphabet whose first symbol index = a
+    SmallA(u16),
+    /// thorough: all strings [a, *, *] and all strings [a, *, x, y] with x, y from the alphabet
+    SmallT(u8),
+    Trunc(u32),
+    Mut1(u32, u16),
+    Mut2(u32, u16, u16),
+    /// thorough: key position 1 = a, key position 2 = every value
+    Key2(u32, u8),
+}
+
+/// identifies one input for the watchdog (kind, entry, two 32-bit parameters)
+#[derive(Clone, Copy, Default)]
+struct Spec {
+    kind: u8,
+    pad: bool,
+    entry: u32,
+    a: u32,
+    b: u32,
+}
+impl Spec {
+    fn pack(self) -> [u64; 2] {
+        [self.kind as u64 | (self.pad as u64) << 8 | (self.entry as u64) << 32, self.a as u64 | (self.b as u64) << 32]
+    }
+    fn unpack(w: [u64; 2]) -> Spec {
+        Spec { kind: w[0] as u8, pad: (w[0] >> 8) & 1 == 1, entry: (w[0] >> 32) as u32, a: w[1] as u32, b: (w[1] >> 32) as u32 }
+    }
+}
+
+struct Domain {
+    tier: Tier,
+    cat: Vec<Entry>,
+    alpha: &'static [u8],
+}
+
+impl Domain {
+    fn new(tier: Tier) -> Result<Domain, String> {
+        let cat = catch_unwind(catalog::build).map_err(|e| format!("catalogue construction panicked: {} at {}", panic_msg(e), last_panic_loc()))?;
+        Ok(Domain { tier, cat, alpha: if tier == Tier::Quick { ALPHA_QUICK } else { ALPHA_THOROUGH } })
+    }
+
+    fn mut_positions(&self, e: &Entry) -> Vec<u16> {
+        let n = e.bytes.len();
+        if n <= LONG_ENTRY || self.tier == Tier::Thorough {
+            (0..n as u16).collect()
+        } else {
+            (0..LONG_HEAD as u16).chain((n - 4) as u16..n as u16).collect()
+        }
+    }
+
+    fn items(&self) -> Vec<Item> {
+        let mut v = vec![];
+        for a in 0..=255u8 {
+            v.push(Item::Small2(a));
+        }
+        if self.tier == Tier::Quick {
+            for a in 0..self.alpha.len() {
+                v.push(Item::SmallA(a as u16));
+            }
+        } else {
+            for a in 0..=255u8 {
+                v.push(Item::SmallT(a));
+            }
+        }
+        for (i, e) in self.cat.iter().enumerate() {
+            v.push(Item::Trunc(i as u32));
+            for p in self.mut_positions(e) {
+                v.push(Item::Mut1(i as u32, p));
+            }
+            for x in 0..e.hot.len() {
+                for y in x + 1..e.hot.len() {
+                    v.push(Item::Mut2(i as u32, e.hot[x], e.hot[y]));
+                }
+            }
+            if self.tier == Tier::Thorough && e.key2.is_some() {
+                for a in 0..=255u8 {
+                    v.push(Item::Key2(i as u32, a));
+                }
+            }
+        }
+        v
+    }
+
+    /// Enumerate every input of a work item, calling `f(spec, bytes)`.
+    fn for_each(&self, item: Item, buf: &mut Vec<u8>, f: &mut dyn FnMut(Spec, &[u8])) {
+        let pad = self.tier == Tier::Thorough;
+        match item {
+            Item::Small2(a) => {
+                if a == 0 {
+                    buf.clear();
+                    f(Spec { kind: 0, a: 0, ..Default::default() }, buf);
+                }
+                buf.clear();
+                buf.push(a);
+                f(Spec { kind: 0, a: 1, b: a as u32, ..Default::default() }, buf);
+                for x in 0..=255u8 {
+                    buf.clear();
+                    buf.extend_from_slice(&[a, x]);
+                    f(Spec { kind: 0, a: 2, b: (a as u32) << 8 | x as u32, ..Default::default() }, buf);
+                }
+            }
+            Item::SmallA(ai) => {
+                let al = self.alpha;
+                for &x in al {
+                    for &y in al {
+                        buf.clear();
+                        buf.extend_from_slice(&[al[ai as usize], x, y]);
+                        f(Spec { kind: 1, a: 3, b: u32::from_be_bytes([0, al[ai as usize], x, y]), ..Default::default() }, buf);
+                        for &z in al {
+                            buf.clear();
+                            buf.extend_from_slice(&[al[ai as usize], x, y, z]);
+                            f(Spec { kind: 1, a: 4, b: u32::from_be_bytes([al[ai as usize], x, y, z]), ..Default::default() }, buf);
+                        }
+                    }
+                }
+            }
+            Item::SmallT(a) => {
+                let al = self.alpha;
+                for x in 0..=255u8 {
+                    for y in 0..=255u8 {
+                        buf.clear();
+                        buf.extend_from_slice(&[a, x, y]);
+                        f(Spec { kind: 1, a: 3, b: u32::from_be_bytes([0, a, x, y]), ..Default::default() }, buf);
+                    }
+                    for &y in al {
+                        for &z in al {
+                            buf.clear();
+                            buf.extend_from_slice(&[a, x, y, z]);
+                            f(Spec { kind: 1, a: 4, b: u32::from_be_bytes([a, x, y, z]), ..Default::default() }, buf);
+                        }
+                    }
+                }
+            }
+            Item::Trunc(ei) => {
+                let e = &self.cat[ei as usize];
+                for n in 0..=e.bytes.len() {
+                    buf.clear();
+                    buf.extend_from_slice(&e.bytes[..n]);
+                    f(Spec { kind: 2, entry: ei, a: n as u32, ..Default::default() }, buf);
+                    if pad && n < PAD_TO {
+                        pad_to(buf);
+                        f(Spec { kind: 2, entry: ei, a: n as u32, pad: true, ..Default::default() }, buf);
+                    }
+                }
+            }
+            Item::Mut1(ei, pos) => {
+                let e = &self.cat[ei as usize];
+                let orig = e.bytes[pos as usize];
+                let mut one = |v: u8, buf: &mut Vec<u8>| {
+                    if v == orig {
+                        return;
+                    }
+                    buf.clear();
+                    buf.extend_from_slice(&e.bytes);
+                    buf[pos as usize] = v;
+                    let a = (pos as u32) << 8 | v as u32;
+                    f(Spec { kind: 3, entry: ei, a, ..Default::default() }, buf);
+                    if pad && buf.len() < PAD_TO {
+                        pad_to(buf);
+                        f(Spec { kind: 3, entry: ei, a, pad: true, ..Default::default() }, buf);
+                    }
+                };
+                for v in 0..=255u8 {
+                    one(v, buf);
+                }
+            }
+            Item::Key2(ei, v1) => {
+                let e = &self.cat[ei as usize];
+                let (p1, p2) = e.key2.expect("Key2 item for entry without key positions");
+                for v2 in 0..=255u8 {
+                    if v1 == e.bytes[p1 as usize] && v2 == e.bytes[p2 as usize] {
+                        continue;
+                    }
+                    buf.clear();
+                    buf.extend_from_slice(&e.bytes);
+                    buf[p1 as usize] = v1;
+                    buf[p2 as usize] = v2;
+                    let (a, b) = ((p1 as u32) << 8 | v1 as u32, (p2 as u32) << 8 | v2 as u32);
+                    f(Spec { kind: 4, entry: ei, a, b, ..Default::default() }, buf);
+                }
+            }
+            Item::Mut2(ei, p1, p2) => {
+                let e = &self.cat[ei as usize];
+                let (o1, o2) = (e.bytes[p1 as usize], e.bytes[p2 as usize]);
+                for &v1 in PAIR_VALUES {
+                    if v1 == o1 {
+                        continue;
+                    }
+                    for &v2 in PAIR_VALUES {
+                        if v2 == o2 {
+                            continue;
+                        }
+                        buf.clear();
+                        buf.extend_from_slice(&e.bytes);
+                        buf[p1 as usize] = v1;
+                        buf[p2 as usize] = v2;
+                        let (a, b) = ((p1 as u32) << 8 | v1 as u32, (p2 as u32) << 8 | v2 as u32);
+                        f(Spec { kind: 4, entry: ei, a, b, ..Default::default() }, buf);
+                        if pad && buf.len() < PAD_TO {
+                            pad_to(buf);
+                            f(Spec { kind: 4, entry: ei, a, b, pad: true }, buf);
+                        }
+                    }
+                }
+            }
+        }
+    }
+
+    /// Is this byte string a member of domain (a)? (catalogue-derived inputs that are, are
+    /// skipped: they are enumerated there)
+    fn in_small_domain(&self, b: &[u8]) -> bool {
+        let al = |x: &u8| self.alpha.contains(x);
+        match (b.len(), self.tier) {
+            (0..=2, _) => true,
+            (3, Tier::Thorough) => true,
+            (4, Tier::Thorough) => al(&b[2]) && al(&b[3]),
+            (3 | 4, Tier::Quick) => b.iter().all(al),
+            _ => false,
+        }
+    }
+
+    fn small_domain_size(&self) -> u64 {
+        let a = self.alpha.len() as u64;
+        match self.tier {
+            Tier::Quick => 65793 + a * a * a + a * a * a * a,
+            Tier::Thorough => 65793 + (1 << 24) + 65536 * a * a,
+        }
+    }
+
+    /// Rebuild the bytes of one input from its spec (watchdog report).
+    #[allow(clippy::identity_op)]
+    fn materialize(&self, s: Spec) -> Vec<u8> {
+        let mut v = match s.kind {
+            0 => match s.a {
+                0 => vec![],
+                1 => vec![s.b as u8],
+                _ => vec![(s.b >> 8) as u8, s.b as u8],
+            },
+            1 => {
+                let x = s.b.to_be_bytes();
+                if s.a == 3 {
+                    x[1..].to_vec()
+                } else {
+                    x.to_vec()
+                }
+            }
+            2 => self.cat[s.entry as usize].bytes[..s.a as usize].to_vec(),
+            3 | 4 => {
+                let mut v = self.cat[s.entry as usize].bytes.clone();
+                v[(s.a >> 8) as usize] = s.a as u8;
+                if s.kind == 4 {
+                    v[(s.b >> 8) as usize] = s.b as u8;
+                }
+                v
+            }
+            _ => vec![],
+        };
+        if s.pad {
+            pad_to(&mut v);
+        }
+        v
+    }
+}
+
+fn pad_to(buf: &mut Vec<u8>) {
+    let mut i = buf.len();
+    while i < PAD_TO {
+        buf.push(PAD_PATTERN[i % 16]);
+        i += 1;
+    }
+}
+
+// ------------------------------------------------------------------------------------------
+// dedup set (128-bit fingerprints; each distinct input is evaluated exactly once)
+// ------------------------------------------------------------------------------------------
+
+#[derive(Default)]
+struct FpHasher(u64);
+impl Hasher for FpHasher {
+    fn finish(&self) -> u64 {
+        self.0
+    }
+    fn write(&mut self, bytes: &[u8]) {
+        for &b in bytes {
+            self.0 = self.0.rotate_left(8) ^ b as u64;
+        }
+    }
+    fn write_u128(&mut self, i: u128) {
+        self.0 = (i as u64) ^ ((i >> 64) as u64).rotate_left(17);
+    }
+}
+type FpSet = HashSet<u128, BuildHasherDefault<FpHasher>>;
+const SHARDS: usize = 1024;
+
+struct Seen {
+    shards: Vec<Mutex<FpSet>>,
+}
+impl Seen {
+    fn new() -> Seen {
+        Seen { shards: (0..SHARDS).map(|_| Mutex::new(FpSet::default())).collect() }
+    }
+    /// true if this input was not seen before
+    fn insert(&self, b: &[u8]) -> bool {
+        // short strings are their own fingerprint (exact); longer ones use the 128-bit hash
+        let fp: u128 = if b.len() <= 15 {
+            let mut x = [0u8; 16];
+            x[..b.len()].copy_from_slice(b);
+            x[15] = b.len() as u8 + 1;
+            u128::from_le_bytes(x)
+        } else {
+            fp128(b) | 1 << 127 | 1 << 126 // top byte >= 0xc0: cannot collide with a short string's length tag (<= 16)
+        };
+        let sh = ((fp >> 64) as u64 ^ fp as u64).wrapping_mul(0x9e3779b97f4a7c15) >> 54;
+        self.shards[sh as usize % SHARDS].lock().unwrap().insert(fp)
+    }
+}
+
+// ------------------------------------------------------------------------------------------
+// evaluation
+// ------------------------------------------------------------------------------------------
+
+fn eval_input(cx: &mut Ctx, spec: Spec, b: &[u8]) {
+    cx.slot.spec[0].store(spec.pack()[0], Ordering::Relaxed);
+    cx.slot.spec[1].store(spec.pack()[1], Ordering::Relaxed);
+    cx.slot.busy.store(true, Ordering::Release);
+    cx.accepted_any = false;
+    for ty in 0..PROBES.len() {
+        cx.begin_group(ty);
+        (PROBES[ty].1)(cx, b);
+    }
+    cx.slot.busy.store(false, Ordering::Release);
+    if cx.accepted_any {
+        cx.distinct_nontrivial += 1;
+        cx.max_len_accepted = cx.max_len_accepted.max(b.len());
+    }
+}
+
+struct Outcome {
+    cx: Ctx,
+    items: usize,
+}
+
+fn explore(dom: &Domain) -> Outcome {
+    use rayon::prelude::*;
+    let items = dom.items();
+    let seen = Seen::new();
+    // Self-scheduling workers: one context per worker, items handed out through a shared
+    // counter (heavy items come first in `items`, so the tail is fine-grained). All counts are
+    // sums over inputs, each distinct input is evaluated exactly once by whichever worker gets
+    // it, so the totals do not depend on the schedule.
+    let next = AtomicUsize::new(0);
+    let workers = rayon::current_num_threads().max(1);
+    let cx = (0..workers)
+        .into_par_iter()
+        .map(|_| {
+            let mut cx = Ctx::new();
+            let mut buf: Vec<u8> = Vec::with_capacity(PAD_TO);
+            loop {
+                let i = next.fetch_add(1, Ordering::Relaxed);
+                if i >= items.len() {
+                    break;
+                }
+                dom.for_each(items[i], &mut buf, &mut |spec, b| {
+                    cx.inputs += 1;
+                    cx.inputs_a += (spec.kind <= 1) as u64;
+                    // domain (a) is duplicate-free by construction; a catalogue-derived input is
+                    // new iff it is not a member of (a) and its fingerprint was not seen before
+                    let fresh = if spec.kind <= 1 { true } else { !dom.in_small_domain(b) && seen.insert(b) };
+                    if fresh {
+                        cx.distinct += 1;
+                        eval_input(&mut cx, spec, b);
+                    }
+                });
+            }
+            cx
+        })
+        .reduce_with(|a, b| a.merge(b))
+        .unwrap_or_else(Ctx::new);
+    Outcome { cx, items: items.len() }
+}
+
+/// What the watchdog found: a call that made no progress for STALL_SECS.
+struct Hang {
+    ty: usize,
+    ordinal: u32,
+    input: Vec<u8>,
+}
+const STALL_SECS: u64 = 30;
+
+fn run_with_watchdog(dom: Arc<Domain>) -> Result<Outcome, Hang> {
+    let (tx, rx) = std::sync::mpsc::channel();
+    let d2 = dom.clone();
+    std::thread::Builder::new()
+        .name("c07-explore".into())
+        .spawn(move || {
+            let _ = tx.send(explore(&d2));
+        })
+        .expect("spawn");
+    // (slot index) -> (seq last seen, consecutive stalled polls)
+    let mut last: Vec<(u64, u64)> = vec![];
+    loop {
+        match rx.recv_timeout(std::time::Duration::from_secs(1)) {
+            Ok(o) => return Ok(o),
+            Err(std::sync::mpsc::RecvTimeoutError::Disconnected) => panic!("explorer thread died"),
+            Err(std::sync::mpsc::RecvTimeoutError::Timeout) => {}
+        }
+        let slots: Vec<Arc<Slot>> = SLOTS.lock().unwrap().clone();
+        last.resize(slots.len(), (0, 0));
+        for (i, s) in slots.iter().enumerate() {
+            let seq = s.seq.load(Ordering::Relaxed);
+            if s.busy.load(Ordering::Acquire) && seq == last[i].0 {
+                last[i].1 += 1;
+                if last[i].1 >= STALL_SECS {
+                    let spec = Spec::unpack([s.spec[0].load(Ordering::Relaxed), s.spec[1].load(Ordering::Relaxed)]);
+                    return Err(Hang { ty: s.ty.load(Ordering::Relaxed), ordinal: s.ordinal.load(Ordering::Relaxed), input: dom.materialize(spec) });
+                }
+            } else {
+                last[i] = (seq, 0);
+            }
+        }
+    }
+}
+
+/// Name the call with the given ordinal without executing it (everything before it is
+/// executed; it terminated when the explorer ran it).
+fn name_call(ty: usize, ordinal: u32, input: &[u8]) -> String {
+    let mut cx = Ctx::new();
+    cx.dry_limit = Some(ordinal);
+    cx.begin_group(ty);
+    (PROBES[ty].1)(&mut cx, input);
+    cx.dry_name.unwrap_or("?").to_string()
+}
+
+// ------------------------------------------------------------------------------------------
+// entry points
+// ------------------------------------------------------------------------------------------
+
+pub fn run(tier: Tier) -> i32 {
+    let mut rep = Report::new("C07", tier);
+    rep.assumptions.push("panics are observable: release profile with debug-assertions + overflow-checks, unwinding; smoltcp is #![deny(unsafe_code)], so an out-of-buffer read is a panic".into());
+    rep.assumptions.push("applicability of accessors per message type follows each module's doc comments and the dispatch in the corresponding Repr::parse (table in probes.rs); setters / *_mut / emit are not read accessors".into());
+    rep.assumptions.push("Repr::parse extra arguments fixed: 192.168.1.1/2, fe80::1/2 (same family per call), 802.15.4 link addresses short/extended/none, two 6LoWPAN contexts; checksum capabilities default and ignored".into());
+    rep.assumptions.push(format!("non-termination inside a smoltcp call is detected by a watchdog (no progress for {} s)", STALL_SECS));
+    let dom = match Domain::new(tier) {
+        Ok(d) => Arc::new(d),
+        Err(e) => {
+            rep.machinery_errors.push(e);
+            return rep.finish();
+        }
+    };
+    let cat_bytes: usize = dom.cat.iter().map(|e| e.bytes.len()).sum();
+    let quick = tier == Tier::Quick;
+    rep.cov(
+        "rule",
+        json!(format!(
+            "E2 input enumeration. (a) all 65793 byte strings of length 0..=2; {}. \
+             (b) {} catalogue packets ({} bytes; Repr::emit output of every wire type and message kind + hand-assembled forms): every truncation; every single-byte corruption \
+             (position x all 255 other values{}); every pair of corruptions over each entry's <=24 hot positions (length/type/offset/count fields) with values {:02x?}{}. \
+             Inputs of (b) that are members of (a) are skipped, the rest are de-duplicated (exact bytes for len<=15, 128-bit fingerprint above); every distinct input is given to all {} view types: \
+             new_checked, then every applicable read accessor, Repr::parse (default + ignored checksum caps), Display and PrettyPrinter, each call under catch_unwind. \
+             states = distinct (type,input) pairs accepted by new_checked (for TcpOption / DnsQuestion / DnsRecord / dispatch functions: parse returned Ok); \
+             transitions = evaluations = calls into smoltcp (new_checked + accessor + parse + formatting); \
+             distinct_nontrivial = distinct inputs accepted by at least one type other than Ipv6HopByHopHeader / Ipv6RoutingHeader (which accept almost any buffer of >=1 / >=2 bytes).",
+            if quick {
+                format!("all strings of length 3 and 4 over a {}-value boundary alphabet", dom.alpha.len())
+            } else {
+                format!("all 2^24 strings of length 3; all strings of length 4 whose bytes 2,3 are from a {}-value boundary alphabet (bytes 0,1: all 65536)", dom.alpha.len())
+            },
+            dom.cat.len(),
+            cat_bytes,
+            if quick { format!("; entries longer than {} bytes: first {} and last 4 positions only", LONG_ENTRY, LONG_HEAD) } else { String::new() },
+            PAIR_VALUES,
+            if quick {
+                String::new()
+            } else {
+                format!(
+                    "; each truncation / corruption / pair additionally padded to {} bytes with a fixed 16-byte pattern; for the {} entries with layout-selecting key bytes (type/dispatch/flags + length/code: bytes 0,1; TCP 12,13; DHCP 243,244; DNS 12,13) the full 256x256 cross product of those two bytes",
+                    PAD_TO,
+                    dom.cat.iter().filter(|e| e.key2.is_some()).count()
+                )
+            },
+            PROBES.len()
+        )),
+    );
+    rep.cov("domain_a_size", json!(dom.small_domain_size()));
+    rep.cov("alphabet_len3_len4", json!(dom.alpha.iter().map(|b| format!("{:02x}", b)).collect::<Vec<_>>()));
+    rep.cov("catalogue", json!(dom.cat.iter().map(|e| json!({"name": e.name, "len": e.bytes.len(), "pair_positions": e.hot.len(), "key_bytes": e.key2.map(|k| vec![k.0, k.1])})).collect::<Vec<_>>()));
+    rep.cov("view_types", json!(PROBES.iter().map(|p| p.0).collect::<Vec<_>>()));
+
+    // a few concrete cases, evaluated here on the main thread (not part of the counts)
+    for (name, ty) in [("tcp/syn-all-options", "TcpPacket"), ("icmpv6/ra-lladdr-mtu-prefix", "Icmpv6Packet"), ("dns/response-cname-a-aaaa", "DnsPacket"), ("nhc-ext/routing", "SixlowpanExtHeaderPacket")] {
+        if let Some(e) = dom.cat.iter().find(|e| e.name == name) {
+            let tyi = PROBES.iter().position(|p| p.0 == ty).unwrap();
+            for cut in [e.bytes.len(), e.bytes.len() / 2] {
+                let mut cx = Ctx::new();
+                cx.begin_group(tyi);
+                (PROBES[tyi].1)(&mut cx, &e.bytes[..cut]);
+                rep.samples.push(json!({"catalogue": name, "truncated_to": cut, "of": e.bytes.len(), "type": ty,
+                    "bytes": hex(&e.bytes[..cut], 48), "accepted_by_new_checked": cx.stats[tyi].accepted == 1,
+                    "calls": cx.stats[tyi].calls, "panics": cx.stats[tyi].panics}));
+                rep.machinery_errors.extend(cx.machinery);
+            }
+        }
+    }
+
+    match run_with_watchdog(dom.clone()) {
+        Ok(out) => {
+            let cx = out.cx;
+            let mut per_type = serde_json::Map::new();
+            let (mut states, mut trans, mut panics, mut loops) = (0u64, 0u64, 0u64, 0u64);
+            for (i, st) in cx.stats.iter().enumerate() {
+                per_type.insert(
+                    PROBES[i].0.to_string(),
+                    json!({"inputs_tried": st.tried, "accepted_by_new_checked": st.accepted, "calls": st.calls, "panics": st.panics, "budget_exceeded": st.loops}),
+                );
+                states += st.accepted;
+                trans += st.calls;
+                panics += st.panics;
+                loops += st.loops;
+                if st.accepted == 0 {
+                    rep.machinery_errors.push(format!("vacuous: no input was accepted by {}", PROBES[i].0));
+                }
+            }
+            rep.cov("per_type", serde_json::Value::Object(per_type));
+            rep.cov("work_items", json!(out.items));
+            rep.add_count("inputs_enumerated", cx.inputs);
+            rep.add_count("inputs_domain_a", cx.inputs_a);
+            if cx.inputs_a != dom.small_domain_size() {
+                rep.machinery_errors.push(format!("domain (a): enumerated {} strings, expected {}", cx.inputs_a, dom.small_domain_size()));
+            }
+            rep.add_count("distinct_inputs", cx.distinct);
+            rep.add_count("states", states);
+            rep.add_count("transitions", trans);
+            rep.add_count("evaluations", trans);
+            rep.add_count("distinct_nontrivial", cx.distinct_nontrivial);
+            rep.add_count("panicking_calls", panics);
+            rep.add_count("budget_exceeded_calls", loops);
+            rep.cov("max_len_accepted", json!(cx.max_len_accepted));
+            rep.machinery_errors.extend(cx.machinery.into_iter().take(8));
+            // re-execute every reported case from its recorded bytes (the artefact must reproduce)
+            let mut validated = 0u64;
+            for f in cx.found.values() {
+                let sigs = replay_sigs(f.ty, &f.input);
+                if sigs.iter().any(|s| s == &f.sig) {
+                    validated += 1;
+                } else {
+                    rep.machinery_errors.push(format!("recorded case for {} did not reproduce on re-execution", f.sig));
+                }
+                rep.violation(
+                    f.sig.clone(),
+                    f.detail.clone(),
+                    json!({"type": f.ty, "call": f.call, "len": f.input.len(), "input_hex": hex_full(&f.input)}),
+                );
+            }
+            rep.add_count("traces_validated_against_impl", validated);
+            rep.and_exhaustive(true);
+        }
+        Err(h) => {
+            let ty = PROBES[h.ty].0;
+            let call = name_call(h.ty, h.ordinal, &h.input);
+            rep.violation(
+                format!("C07/loop/{}/{}", ty, call),
+                format!("{}: call #{} ({}) made no progress for {} s; input = {}", ty, h.ordinal, call, STALL_SECS, hex(&h.input, 96)),
+                json!({"type": ty, "call": call, "len": h.input.len(), "input_hex": hex_full(&h.input), "hang": true}),
+            );
+            rep.cov("aborted", json!("a call under test did not return; the enumeration was abandoned at that point (counts not available)"));
+            rep.and_exhaustive(false);
+        }
+    }
+    rep.finish()
+}
+
+/// Run one type's probe on one input; return the signatures it produces.
+fn replay_sigs(ty: &str, input: &[u8]) -> Vec<String> {
+    let Some(tyi) = PROBES.iter().position(|p| p.0 == ty) else { return vec![] };
+    let mut cx = Ctx::new();
+    cx.begin_group(tyi);
+    (PROBES[tyi].1)(&mut cx, input);
+    cx.found.keys().cloned().collect()
+}
+
+pub fn replay(art: &serde_json::Value) -> i32 {
+    let r = &art["replay"];
+    let want = art["signature"].as_str().unwrap_or("").to_string();
+    let ty = r["type"].as_str().unwrap_or("").to_string();
+    let Some(input) = r["input_hex"].as_str().and_then(unhex) else {
+        eprintln!("MACHINERY ERROR: artefact has no input_hex");
+        return 2;
+    };
+    let Some(tyi) = PROBES.iter().position(|p| p.0 == ty) else {
+        eprintln!("MACHINERY ERROR: unknown type {}", ty);
+        return 2;
+    };
+    println!("type {}  input ({} bytes) {}", ty, input.len(), hex(&input, 128));
+    // run in a helper thread so that a non-terminating call is reported instead of hanging
+    let (tx, rx) = std::sync::mpsc::channel();
+    let inp = input.clone();
+    std::thread::spawn(move || {
+        let mut cx = Ctx::new();
+        cx.begin_group(tyi);
+        (PROBES[tyi].1)(&mut cx, &inp);
+        let _ = tx.send((cx.stats[tyi].clone(), cx.found, cx.machinery));
+    });
+    match rx.recv_timeout(std::time::Duration::from_secs(STALL_SECS)) {
+        Ok((st, found, mach)) => {
+            println!("new_checked: {}  calls made: {}  panics: {}  budget exceeded: {}", if st.accepted > 0 { "Ok" } else { "Err (rejected)" }, st.calls, st.panics, st.loops);
+            for m in &mach {
+                eprintln!("MACHINERY ERROR: {}", m);
+            }
+            for f in found.values() {
+                println!("violation: {} :: {}", f.sig, f.detail);
+            }
+            if !mach.is_empty() {
+                2
+            } else if found.contains_key(&want) || (want.is_empty() && !found.is_empty()) {
+                1
+            } else {
+                if !found.is_empty() {
+                    println!("(the recorded signature {} did not recur; other signatures listed above)", want);
+                    return 1;
+                }
+                println!("no violation on replay");
+                0
+            }
+        }
+        Err(_) => {
+            println!("violation: {} :: the probe did not return within {} s", want, STALL_SECS);
+            1
+        }
+    }
 }
